@@ -27,7 +27,10 @@ import (
 //	reset <bps> <nocomp> <now> <inflight>
 //	rtt <ns> <now> <inflight>
 //	mds <size> <now> <inflight>
-//	send <t> <size> <now> <inflight>
+//	send <t> <size> <now> <inflight>      a packet the pacer is supposed to have released
+//	usend <t> <size> <now> <inflight>     a packet reported to OnPacketSent although the pacer did not
+//	                                      release it (ACK-only, PTO probe, path-MTU probe): any size
+//	gsend <t> <size> <now> <inflight>     sent only if HasPacingBudget(t) and size ≤ one datagram
 //	ack <t> <nAck> <nLoss> <now> <inflight>
 //	q <now> <inflight>
 //
@@ -42,8 +45,9 @@ import (
 //	O4 GetCongestionWindow() ≥ maxDatagramSize (datagrams ≤ 10240) and CanSend(0)
 //	O5 t := TimeUntilSend(); t ≠ 0 → HasPacingBudget(t) and HasPacingBudget(t+δ);
 //	   t = 0 → HasPacingBudget(now) for now ≥ lastSentTime
-//	O6 while every send was released by HasPacingBudget and is ≤ one datagram: for every
-//	   window [t_i, t_j] of sends, Σ bytes ≤ max(B·4ms, 10·M) + B·(t_j−t_i)/10⁹ with
+//	O6 while every `send` was released by HasPacingBudget and is ≤ one datagram (`usend`s of any
+//	   size may occur in between and are not counted): for every window [t_i, t_j] of paced
+//	   sends, Σ paced bytes ≤ max(B·4ms, 10·M) + B·(t_j−t_i)/10⁹ with
 //	   B = ⌊bps·5/4⌋ (bps when compensation is disabled) and M the largest datagram size set
 //	O7 Budget(now) ≤ max(B·4ms, 10·M)
 func init() {
@@ -307,19 +311,24 @@ func (c *brutalComp) Run(op string) vh.Result {
 		if xs[0] > c.maxMds {
 			c.maxMds = xs[0]
 		}
-	case f[0] == "send" && len(xs) == 4:
+	case (f[0] == "send" || f[0] == "usend" || f[0] == "gsend") && len(xs) == 4:
 		t, size := xs[0], xs[1]
 		_, mds, last := c.bs.VerifC11Pacer().VerifC11State()
+		hpb := c.bs.HasPacingBudget(monotime.Time(t))
+		if f[0] == "gsend" && !(hpb && size >= 0 && size <= mds) {
+			break // the pacer holds the packet back: nothing is sent
+		}
 		if last != 0 && !c.fits63(t-last) {
 			c.inRange = false
 		}
-		if t <= 0 || t < c.lastT || size < 0 || size > mds || !c.bs.HasPacingBudget(monotime.Time(t)) {
+		paced := f[0] != "usend"
+		if t <= 0 || t < c.lastT || size < 0 || (paced && (size > mds || !hpb)) {
 			c.gated = false
 		}
 		c.lastT = t
 		c.bs.OnPacketSent(monotime.Time(t), congestion.ByteCount(infl), 0, congestion.ByteCount(size), true)
 		nontrivial = true
-		if c.gated && c.inRange {
+		if paced && c.gated && c.inRange {
 			c.sends = append(c.sends, c11Send{t, size})
 			orc = append(orc, c.checkWindows()...)
 		}
@@ -476,7 +485,37 @@ func (c *brutalComp) Gen(r *vh.RNG, n int, emit func(op string, tags ...string))
 						e(tag+":wake-without-budget", "q %d %d", now, infl())
 					}
 				}
-			case k < 63: // idle gap
+			case k < 60: // packets that bypass the pacer while it is limiting, then the send loop resumes at once
+				for i := 0; i < 40 && c.bs.HasPacingBudget(monotime.Time(now)); i++ {
+					e(tag+":send-drain", "send %d %d %d %d", now, mds, now, infl())
+				}
+				for cyc := r.Range(1, 3); cyc > 0; cyc-- {
+					for u := r.Range(1, 3); u > 0; u-- {
+						var size int64
+						kind := ""
+						switch r.Intn(4) {
+						case 0:
+							size, kind = int64(r.Range(30, 80)), "usend-ack"
+						case 1:
+							size, kind = int64(r.Range(200, int(mds))), "usend-probe"
+						case 2:
+							size, kind = mds, "usend-probe"
+						default:
+							size, kind = mds+int64(r.Range(1, 300)), "usend-mtu"
+						}
+						e(tag+":"+kind, "usend %d %d %d %d", now, size, now, infl())
+					}
+					if r.Chance(1, 3) {
+						e(tag+":gsend", "gsend %d %d %d %d", now, mds, now, infl())
+					}
+					for i := 0; i < 30 && c.bs.HasPacingBudget(monotime.Time(now)); i++ {
+						e(tag+":send-after-unpaced", "send %d %d %d %d", now, mds, now, infl())
+					}
+					if r.Chance(1, 2) {
+						now += int64(r.Intn(100_000))
+					}
+				}
+			case k < 66: // idle gap
 				g := c.maxGap()
 				var d int64
 				switch r.Intn(5) {
@@ -505,7 +544,7 @@ func (c *brutalComp) Gen(r *vh.RNG, n int, emit func(op string, tags ...string))
 				}
 				now += d
 				e(tag+":idle", "q %d %d", now, infl())
-			case k < 66 && wild: // time running backwards (not a QUIC behaviour)
+			case k < 68 && wild: // time running backwards (not a QUIC behaviour)
 				back := now - int64(r.Intn(2_000_000_000))
 				if back < 1 {
 					back = 1
